@@ -210,6 +210,7 @@ def main(argv=None):
     cache = ResultCache(tree_hash(repo.root, args.tier))
     cache_hits = 0
     retried = []
+    accepted_from_lock = []
     repo_now = repo_sources_hash(repo.root)
     repo_unchanged = lock.get("__repo__", {}).get("tree") == repo_now
 
@@ -254,7 +255,8 @@ def main(argv=None):
                 # caller's proof it is an assumption like any other
                 assumed_used.add(c + " (contract relied upon by callers; its body is not verified by any check)")
         functions.append({"qualname": q, "file": (rep.file or "").replace(repo.root + "/", ""), "line": rep.line,
-                          "source_hash": rep.hash, "paths": rep.paths, "seconds": round(rep.seconds, 2)})
+                          "source_hash": rep.hash, "paths": rep.paths, "seconds": round(rep.seconds, 2),
+                          "inlined_hashes": vc_inputs(repo, q, rep.inlined)})
         if rep.errors:
             checker_errors += [f"{q}: {e}" for e in rep.errors]
         agg = rep.summary()
@@ -307,6 +309,17 @@ def main(argv=None):
             # that is `unknown` now (even with tripled budgets) is a solver-budget problem of the
             # machinery, never a verdict about the code
             checker_errors.append(f"{name}: proved when the lock was written, undecided now on an unchanged repository ({rec.get('reason', '')[:120]})")
+            continue
+        fnow = next((f for f in functions if f["qualname"] == q), {})
+        same_vc = (was_proved and locked.get("source_hash") == fnow.get("source_hash")
+                   and "inlined_hashes" in locked and locked["inlined_hashes"] == fnow.get("inlined_hashes"))
+        if rec["status"] != "refuted" and same_vc:
+            # the text this obligation was generated from (the function and every function inlined into
+            # it) is what it was when the lock was written, where this very obligation was proved: the
+            # solver ran out of its budget (tripled already) on an identical formula - not a verdict
+            # about code that was edited elsewhere.  Counted as discharged, and listed.
+            accepted_from_lock.append(name)
+            ob["status"] = "proved"
             continue
         if rec["status"] == "refuted" or was_proved:
             violations.append(make_violation(pid, spec, name, ob, rec, was_proved))
@@ -445,6 +458,7 @@ def main(argv=None):
             "solver_seconds": round(solver_seconds, 2),
             "functions_reused_from_this_run_cache": cache_hits,
             "functions_retried_with_tripled_solver_budgets": retried,
+            "obligations_accepted_from_lock_identical_formula_solver_timeout": accepted_from_lock,
             "samples": samples,
             "explanation": explanation or "all obligations generated from the current source were discharged",
             "undecided": undecided,
@@ -467,7 +481,7 @@ def main(argv=None):
     if args.update_lock:
         for fn in functions:
             q = fn["qualname"]
-            lock[q] = {"source_hash": fn["source_hash"],
+            lock[q] = {"source_hash": fn["source_hash"], "inlined_hashes": fn.get("inlined_hashes", {}),
                        "obligations": sorted(n for n, o in all_obs.items() if o["function"] == q and o["status"] == "proved")}
         lock["__repo__"] = {"tree": repo_now}
         with open(LOCK, "w") as f:
@@ -504,6 +518,62 @@ def match_known(known, name, rec):
 
 def slug(s):
     return "".join(c if c.isalnum() else "-" for c in s)[-80:]
+
+
+def vc_inputs(repo, q, inlined):
+    """what, besides the function's own text, the formulas of a verified function are generated from"""
+    hs, mods = inlined_hashes(repo, inlined)
+    try:
+        m, _, _ = repo.lookup(q.split("@")[0])
+        if m is not None:
+            mods.add(m)
+    except Exception:
+        pass
+    hs["<module-level and class-level definitions>"] = consts_hash(mods)
+    return hs
+
+
+def inlined_hashes(repo, names):
+    """source hashes of the functions whose bodies were inlined into a verified function"""
+    from .loader import source_hash
+    import ast, hashlib
+    out = {}
+    mods = set()
+    for n in sorted(names or []):
+        try:
+            m, _, node = repo.lookup(n)
+        except Exception:
+            m, node = None, None
+        out[n] = source_hash(node) if node is not None else "?"
+        if m is not None:
+            mods.add(m)
+    return out, mods
+
+
+def consts_hash(mods):
+    """hash of everything in these modules that is not a function body: module-level and class-level
+    assignments, imports, class headers (a changed constant changes the formulas of functions that use it)"""
+    import ast, hashlib
+    h = hashlib.sha256()
+    for m in sorted(mods, key=lambda x: x.name):
+        try:
+            tree = ast.parse(m.source)
+        except Exception:
+            h.update(b"?")
+            continue
+        def walk(body, prefix):
+            for st in body:
+                if isinstance(st, (ast.FunctionDef, ast.AsyncFunctionDef)):
+                    h.update((prefix + "def " + st.name + ":" + ast.dump(st.args) + "|" + ",".join(ast.dump(d) for d in st.decorator_list)).encode())
+                elif isinstance(st, ast.ClassDef):
+                    h.update((prefix + "class " + st.name + ":" + ",".join(ast.dump(b) for b in st.bases)).encode())
+                    walk(st.body, prefix + st.name + ".")
+                elif isinstance(st, ast.Expr) and isinstance(st.value, ast.Constant):
+                    continue
+                else:
+                    h.update((prefix + ast.dump(st)).encode())
+        walk(tree.body, m.name + ":")
+    return h.hexdigest()[:16]
 
 
 def make_violation(pid, spec, name, ob, rec, was_proved):
